@@ -316,7 +316,16 @@ def build_case(data):
     system = t.pick(['en', 'ja'])
     nsent = t.weighted([(4, 1), (2, 2), (1, 3)])
     batch = []
-    for _ in range(nsent):
+    if t.chance(40):
+        # one file with two nodes over the same child categories but different result categories
+        pair = gen_tree.t_ambiguous_pair(t, gen_tree.rule_index(system))
+        if pair:
+            toks = [(gen_tok.t_token_ja if system == 'ja' else gen_tok.t_token_en)(t, '') for _ in range(2)]
+            tcs = [{'system': system, 'licensed': True, 'deriv': gen_tree.deriv_json(d), 'tokens': toks} for d in pair]
+            batch = [[tcs[0]], [tcs[1]]] if t.chance(128) else [[tcs[0], tcs[1]]]
+            if t.chance(128):
+                batch.reverse()
+    for _ in range(nsent if not batch else 0):
         nb = t.weighted([(3, 1), (2, 2), (1, 3)])
         first = gen_tree.t_tree_case(t, system, max_leaves=5, tok_exclude='', ja_tokens=(system == 'ja'))
         sent = [first]
